@@ -151,6 +151,11 @@ func (p c20) Run(c *fw.Case) {
 	for name := range populated {
 		c.Count("populated:"+name[:strings.IndexByte(name, '@')], 1)
 	}
+	shared := 0
+	if c.Idx%5 == 2 {
+		shared = shareSubschemas(r, s) // a DAG: sub-schema objects used at two places
+		c.Count("dag_inputs", 1)
+	}
 	m0, err, ok := marshalSchema(c, s, "generated tree")
 	if !ok || err != nil {
 		if err != nil {
@@ -186,7 +191,7 @@ func (p c20) Run(c *fw.Case) {
 			return
 		}
 	}
-	if len(po) != len(pc) {
+	if len(po) != len(pc) && shared == 0 {
 		c.Violation("the clone has a different number of Schema objects", wit(map[string]any{"original_objects": len(po), "clone_objects": len(pc)}))
 		return
 	}
